@@ -84,6 +84,7 @@ Print Assumptions C11_bootstrap_view.
 Theorem C11_bootstrap_synced : forall i,
   table_ok (i_table i) = true -> store_ok (i_table i) (i_store i) = true ->
   defaults_ok (options (i_table i)) (i_defaults i) = true ->
+  pre_ok (options (i_table i)) (i_pre i) = true ->
   exists st0, m_bootstrap i = Ok st0 /\ Rel (options (i_table i)) (i_defaults i) st0 (mon0 i).
 Proof. exact bootstrap_synced. Qed.
 Print Assumptions C11_bootstrap_synced.
@@ -144,6 +145,15 @@ Theorem C11_reset_scalar_reads_typed_default :
   accepted11 w11_reset 4 (XVal (RAtom (AStr (bs "DEFAULT")))).
 Proof. exact f11_reset_accepted. Qed.
 Print Assumptions C11_reset_scalar_reads_typed_default.
+
+(* TorConfig() + assignments + attach_protocol() (the launch() path) reaches the same attached view: the
+   values assigned before the attachment are neither validated nor sent; afterwards reads give Tor's values,
+   events and saves work as after TorConfig(protocol) *)
+Theorem C11_attach_later_same_view :
+  accepted11 w11_attach 0 (XVal (RAtom (AInt 2))) /\ accepted11 w11_attach 1 (XVal (RList true [bs "9050"])) /\
+  accepted11 w11_attach 5 (XVal (RAtom (AInt 4))).
+Proof. exact f11_attach_accepted. Qed.
+Print Assumptions C11_attach_later_same_view.
 
 (* ---- the open finding: the full statement fails on a concrete input of the class ---- *)
 Theorem C11_edit_while_detached_refuted :
